@@ -397,6 +397,8 @@ impl Segment {
         r.wf(), r.header is None, r.total_data_length == 0, r.epoch == 0, r.timeout_seconds == 15,
         forall|j: int| !r.fragment_blocks.bit(j),
         heap_seq(r.fragments).len() == 0,   //# starts_empty [C11]
+        // a fresh buffer satisfies the payload invariant for whatever datagram it is going to reassemble
+        forall|d: Seq<u8>| 0 < d.len() && d.len() + 20 <= 65535 ==> #[trigger] r.pay_inv(d),   //# fresh_buffer_fits_any_datagram [C11]
 //@ end
 
 //@ item sim/elvis-core/src/protocols/ipv4/reassembly/segment.rs :: impl Segment / fn receive_packet id=Segment.receive_packet
